@@ -129,9 +129,18 @@ def _contract_case(rng, n_names):
     return ["frac", numl, denl]
 
 
+def _load_corpus():
+    """corpus/Cxx/*.json (witnesses and examples; falls back to the inline list)"""
+    d = C.VERIF / "corpus" / PROP
+    files = sorted(d.glob("*.json")) if d.is_dir() else []
+    if not files:
+        return [dict(c) for c in CORPUS]
+    return [json.loads(f.read_text()) for f in files]
+
+
 def cases(rng: random.Random, tier: str):
-    out = [dict(c) for c in CORPUS]
-    n = 1600 if tier == "quick" else 14000
+    out = _load_corpus()
+    n = 12000 if tier == "quick" else 80000
     for _ in range(n):
         op = rng.choice(OPS)
         ws = rng.random() < 0.7
@@ -443,18 +452,25 @@ def request(case):
         return C.enc(["expr", op, a, case["r"]])
     if op in ("frac_simplify", "sum_simplify"):
         return C.enc(["expr", "simplify", a])
+    if op in ("chain_expand", "fraction_expand", "bayes_expand", "contract", "recursive_contract") and _has_sort_tie(a):
+        # two different variables with the same sort key (same name [and subscripts], different star / class) are ordered
+        # by Python's set iteration order inside _upgrade_ordering / sorted(set): inherently hash-seed dependent, no model side
+        return None
     if op == "chain_expand":
-        # two different variables with the same _variable_sort_key (same name and subscripts, different star / class) are
-        # ordered by Python's set iteration order inside ensure_ordering: inherently hash-seed dependent, no model side
-        vs = [X.to_str_tree(v) for v in GE.event_vars(a)]
-        keys = {}
-        for v in vs:
-            keys.setdefault((v[1], json.dumps(v[4])), set()).add(json.dumps(v))
-        if case["reorder"] and any(len(x) > 1 for x in keys.values()):
-            return None
         return C.enc(["expr", op, a, "true" if case["reorder"] else "false",
                       "none" if case["ordering"] is None else ["some"] + list(case["ordering"])])
     return C.enc(["expr", op, a])
+
+
+def _has_sort_tie(enc):
+    for t in GE.subterms(enc):
+        if isinstance(t, list) and t[0] in ("P", "PP"):
+            keys = {}
+            for v in X.to_str_tree(list(GE._leaf_parts(t)[0]) + list(GE._leaf_parts(t)[1])):
+                keys.setdefault(v[1], set()).add(json.dumps(v))
+            if any(len(x) > 1 for x in keys.values()):
+                return True
+    return False
 
 
 def canon_model(case, rep):
